@@ -232,6 +232,10 @@ def validate_taxonomy_tree(
                         msg += f"{this_parent}\nand "
                         msg += f"{child_to_parent[child_level][this_child]}"
                         raise RuntimeError(msg)
+                    msg = f"at level {child_level}, node {this_child} "
+                    msg += "is listed more than once as a child of "
+                    msg += f"{parent_level}:{this_parent}"
+                    raise RuntimeError(msg)
                 else:
                     child_to_parent[child_level][this_child] = this_parent
 
